@@ -17,6 +17,8 @@
 // recorded ("removed nodes at end of case").
 //
 // Only handles of nodes currently in the list are ever passed to the library (the precondition).
+// The list under test is held in rotating embeddings (embed.go: variable, new, slice element, struct
+// fields at odd 4-byte offsets, array-of-struct fields), which matters for the GOARCH=386 variant.
 //
 // Variant word "owner" (built with -race; see owner.go) runs ONLY the concurrent reading of "their
 // Value is never touched": owners update node.Value without the list mutex while the list is operated
@@ -34,6 +36,8 @@
 //	        PushBack-built list of length s, for a table of (s, d) (quick: (0,5) (1,3) (2,3) (3,3)
 //	        (4,2) (5,2) (6,2)); shorter histories are prefixes of these and are checked step by step
 //	        on the way. Complete; the count is checked against an independent recurrence.
+//	clear-wrap  one list cleared 2^8, 2^16 (thorough, 64-bit: 2^32) times, a scripted history of all ten
+//	        operations at each Clear count from 2 below to 3 above the power.
 //	rand    seeded random histories of 10..300 ops (thorough: up to 5000) in four profiles, with
 //	        Clear and regrowth, and regrowth after removing every node.
 package main
@@ -43,6 +47,7 @@ import (
 	"os"
 	"runtime"
 	"sort"
+	"strconv"
 	"strings"
 	"sync"
 
@@ -147,11 +152,16 @@ type stats struct {
 	regrewDrain int64 // random histories that regrew to >= 2 nodes after Remove took the last node
 	randHist    int64
 	// where node and mark sat (filled by note; turned into tables at the end of the run)
-	moveRel      [nKinds][5]int64  // MoveBefore/MoveAfter: relative position class
-	ends2        [nKinds][16]int64 // MoveBefore/MoveAfter: end class of node x end class of mark
-	ends1        [nKinds][4]int64  // one-handle ops: end class of the handle
-	onEmpty      [nKinds][2]int64  // PushFront/PushBack/Clear: on an empty / a non-empty list
-	clearDropped [2]int64          // nodes dropped by Clear: unlinked / still linked
+	moveRel      [nKinds][5]int64   // MoveBefore/MoveAfter: relative position class
+	ends2        [nKinds][16]int64  // MoveBefore/MoveAfter: end class of node x end class of mark
+	ends1        [nKinds][4]int64   // one-handle ops: end class of the handle
+	onEmpty      [nKinds][2]int64   // PushFront/PushBack/Clear: on an empty / a non-empty list
+	clearDropped [2]int64           // nodes dropped by Clear: unlinked / still linked
+	lists        int64              // lists made
+	emb          [nEmbeddings]int64 // ... by embedding
+	addr         [8]int64           // ... by address modulo 8
+	wrapGens     int64              // clear-wrap: generations (Clear counts) at which the scripted history ran
+	wrapClears   int64              // clear-wrap: Clear calls on the one list
 }
 
 var relNames = [5]string{"node == mark", "node immediately before mark", "node immediately after mark", "node before mark, apart", "node after mark, apart"}
@@ -226,6 +236,15 @@ func (s *stats) mergeInto(r *vkit.Report) {
 			agg.onEmpty[k][x] += v
 		}
 	}
+	agg.lists += s.lists
+	for x, v := range s.emb {
+		agg.emb[x] += v
+	}
+	for x, v := range s.addr {
+		agg.addr[x] += v
+	}
+	agg.wrapGens += s.wrapGens
+	agg.wrapClears += s.wrapClears
 	agg.clearDropped[0] += s.clearDropped[0]
 	agg.clearDropped[1] += s.clearDropped[1]
 	r.Eval(int(s.evals))
@@ -242,7 +261,8 @@ type ent struct {
 type sut struct {
 	c     *vkit.Case
 	st    *stats
-	l     xlist.List[int]
+	l     *xlist.List[int] // held in one of the embeddings of embed.go
+	emb   int
 	model []ent
 	all   []*node // every handle ever returned; all[k].Value must stay k+1
 	// handles that left the list
@@ -253,7 +273,23 @@ type sut struct {
 	failed  bool
 }
 
-func newSut(c *vkit.Case, st *stats) *sut { return &sut{c: c, st: st} }
+// newSut makes a fresh monitored list; the embedding rotates with the case index and the number of
+// lists the case has made so far (deterministic).
+func newSut(c *vkit.Case, st *stats) *sut {
+	emb := (c.Index + int(st.lists)) % nEmbeddings
+	st.lists++
+	s := &sut{c: c, st: st, emb: emb, l: newListIn[int](emb)}
+	st.emb[emb]++
+	st.addr[addrMod8(s.l)]++
+	return s
+}
+
+// safeLen is Len() for use while reporting (a panicking Len must not kill the report).
+func (s *sut) safeLen() int {
+	n := -1
+	vkit.Try(func() { n = s.l.Len() })
+	return n
+}
 
 func (s *sut) idOf() map[*node]int {
 	m := make(map[*node]int, len(s.all))
@@ -326,7 +362,7 @@ func (s *sut) fail(sig, what string) {
 	s.failed = true
 	ids := s.idOf()
 	bound := len(s.model) + 2
-	if l := s.l.Len(); l > len(s.model) && l < 1<<20 {
+	if l := s.safeLen(); l > len(s.model) && l < 1<<20 {
 		bound = l + 2
 	}
 	fw, fe := s.boundedWalk(s.l.Front(), (*node).Next, bound)
@@ -340,15 +376,16 @@ func (s *sut) fail(sig, what string) {
 		"ideal_sequence": s.modelIDs(),
 		"forward_walk":   s.renderWalk(ids, fw, fe),
 		"backward_walk":  s.renderWalk(ids, bw, be),
-		"Len":            s.l.Len(),
+		"Len":            s.safeLen(),
+		"list_held_as":   embeddingNames[s.emb],
 		"ops_applied":    len(s.log),
 	}
 	for k, v := range s.context {
 		w[k] = v
 	}
-	s.c.Violation(sig, fmt.Sprintf("after op %d %s: %s; ideal sequence %v, forward walk %v, backward walk %v, Len()=%d",
-		len(s.log), last, what, strings.Join(s.modelIDs(), " "), strings.Join(s.renderWalk(ids, fw, fe), " "),
-		strings.Join(s.renderWalk(ids, bw, be), " "), s.l.Len()), w)
+	s.c.Violation(sig, fmt.Sprintf("after op %d %s (list held as %s): %s; ideal sequence %v, forward walk %v, backward walk %v, Len()=%d",
+		len(s.log), last, embeddingNames[s.emb], what, strings.Join(s.modelIDs(), " "), strings.Join(s.renderWalk(ids, fw, fe), " "),
+		strings.Join(s.renderWalk(ids, bw, be), " "), s.safeLen()), w)
 }
 
 // check compares the complete observable state with the model. rm is the handle just passed to
@@ -595,7 +632,9 @@ func (s *sut) apply(o op) bool {
 	if len(s.model) > s.st.maxLen {
 		s.st.maxLen = len(s.model)
 	}
-	s.check(rm)
+	if p := vkit.Try(func() { s.check(rm) }); p != nil {
+		s.fail("panic", fmt.Sprintf("observing the list (Len/Front/Back/Next/Prev) panicked: %s (in %s)", p.Msg, p.JuniperFrame()))
+	}
 	return !s.failed
 }
 
@@ -1281,6 +1320,121 @@ func runRandom(r *vkit.Report, nCases int) {
 }
 
 // ---------------------------------------------------------------------------------------------
+// Group "clear-wrap": ONE list object is cleared 2^8, 2^16 (and, thorough tier on 64-bit platforms,
+// 2^32) times; at every Clear count from two below to three above each power a scripted history of
+// all ten operations runs under the full oracle. (A per-list Clear/generation counter narrower than
+// the number of Clears a program can perform would wrap exactly there.)
+
+// wrapScript: all ten operations on nodes added in the current generation, one Clear, regrowth.
+// It works from any starting length and ends on a non-empty list; it contains exactly one Clear.
+func wrapScript(s *sut) bool {
+	last := func() int { return len(s.model) - 1 }
+	steps := []func() op{
+		func() op { return op{opPushFront, -1, -1} },
+		func() op { return op{opPushBack, -1, -1} },
+		func() op { return op{opInsertBefore, 1, -1} },
+		func() op { return op{opInsertAfter, 0, -1} },
+		func() op { return op{opMoveBefore, last(), 0} },
+		func() op { return op{opMoveAfter, 0, last()} },
+		func() op { return op{opMoveBefore, 1, 2} },
+		func() op { return op{opMoveAfter, 2, 1} },
+		func() op { return op{opMoveToFront, 2, -1} },
+		func() op { return op{opMoveToBack, 1, -1} },
+		func() op { return op{opMoveToFront, last(), -1} },
+		func() op { return op{opMoveToBack, 0, -1} },
+		func() op { return op{opRemove, 1, -1} },
+		func() op { return op{opRemove, 0, -1} },
+		func() op { return op{opRemove, last(), -1} },
+		func() op { return op{opClear, -1, -1} },
+		func() op { return op{opPushBack, -1, -1} },
+		func() op { return op{opPushFront, -1, -1} },
+		func() op { return op{opInsertAfter, 0, -1} },
+		func() op { return op{opInsertBefore, 0, -1} },
+		func() op { return op{opMoveToBack, 0, -1} },
+		func() op { return op{opMoveAfter, 0, 1} },
+		func() op { return op{opMoveBefore, last(), 0} },
+		func() op { return op{opRemove, 1, -1} },
+	}
+	for _, f := range steps {
+		if !s.apply(f()) {
+			return false
+		}
+	}
+	return true
+}
+
+func runClearWrap(r *vkit.Report) {
+	powers := []uint{8, 16}
+	if r.Thorough() && strconv.IntSize == 64 && !r.VariantHas("386") {
+		powers = append(powers, 32)
+	}
+	r.Cases("clear-wrap", 1, 1, func(c *vkit.Case) {
+		st := newStats()
+		defer st.mergeInto(r)
+		s := newSut(c, st)
+		var clears uint64 // Clear calls on this list object so far
+		s.context = map[string]any{"group": "clear-wrap"}
+		for _, pw := range powers {
+			n := uint64(1) << pw
+			// bring the list to n-2 Clears: checked ones now and then, the bulk directly on the empty list
+			if len(s.model) > 0 {
+				if !s.apply(op{opClear, -1, -1}) {
+					return
+				}
+				clears++
+			}
+			for clears < n-2 {
+				chunk := n - 2 - clears
+				if chunk > 1<<22 {
+					chunk = 1 << 22
+				}
+				if chunk > 2 {
+					var p *vkit.Panic
+					if pw <= 16 {
+						// one-element list
+						for i := uint64(0); i < chunk-1 && !s.failed; i++ {
+							if !s.apply(op{opPushBack, -1, -1}) || !s.apply(op{opClear, -1, -1}) {
+								return
+							}
+							clears++
+						}
+						continue
+					}
+					l := s.l
+					p = vkit.Try(func() {
+						for i := uint64(0); i < chunk-1; i++ {
+							l.Clear()
+						}
+					})
+					clears += chunk - 1
+					if p != nil {
+						s.fail("panic", fmt.Sprintf("Clear panicked during %d consecutive Clears of an empty list: %s", chunk-1, p.Msg))
+						return
+					}
+				}
+				// a checked Clear of a one-element list
+				if !s.apply(op{opPushBack, -1, -1}) || !s.apply(op{opClear, -1, -1}) {
+					return
+				}
+				clears++
+			}
+			for g := 0; g < 5; g++ {
+				s.context["clears_of_this_list_before_the_script"] = clears
+				s.context["near"] = fmt.Sprintf("2^%d", pw)
+				if !wrapScript(s) {
+					return
+				}
+				clears++
+				st.wrapGens++
+				st.count("clear-wrap: scripted history ran after this many Clears of the one list", fmt.Sprintf("2^%d%+d", pw, int64(clears-1)-int64(n)), 1)
+			}
+		}
+		s.finalCheck()
+		st.wrapClears = int64(clears)
+	})
+}
+
+// ---------------------------------------------------------------------------------------------
 
 func main() {
 	vkit.Main("C06", "exploration", func(r *vkit.Report) {
@@ -1315,6 +1469,9 @@ func main() {
 		}
 		if only == "" || only == "rand" {
 			runRandom(r, nRand)
+		}
+		if only == "" || only == "clear-wrap" {
+			runClearWrap(r)
 		}
 
 		// Write the aggregate to the report.
@@ -1355,6 +1512,26 @@ func main() {
 		}
 		r.Count("nodes dropped by Clear (observation, not judged)", "no neighbours afterwards", int(agg.clearDropped[0]))
 		r.Count("nodes dropped by Clear (observation, not judged)", "still linked to each other", int(agg.clearDropped[1]))
+		for x, v := range agg.emb {
+			r.Count("lists under test by how they are held", embeddingNames[x], int(v))
+		}
+		for x, v := range agg.addr {
+			if v > 0 {
+				r.Count("lists under test by address modulo 8", strconv.Itoa(x), int(v))
+			}
+		}
+		r.Count("clear-wrap", "Clear calls on the one list", int(agg.wrapClears))
+		wantGens := int64(10)
+		if r.Thorough() && strconv.IntSize == 64 && !r.VariantHas("386") {
+			wantGens = 15
+		}
+		r.Floor("clear-wrap: Clear counts at which the scripted history ran", agg.wrapGens, wantGens)
+		for x := range agg.emb {
+			r.Floor("lists held as: "+embeddingNames[x], agg.emb[x], 1000)
+		}
+		if strconv.IntSize == 32 {
+			r.Floor("32-bit: lists at an address = 4 mod 8", agg.addr[4], 1000)
+		}
 		r.Max("sizes", "longest list", agg.maxLen)
 		r.Max("sizes", "longest random history (ops)", agg.maxOps)
 		r.Count("rand: regrowth", "histories that regrew to >= 2 nodes after Clear of a non-empty list", int(agg.regrewClear))
